@@ -401,7 +401,7 @@ func rulesC06(w *World, r *Report) {
 		guardNote := ""
 		for _, c := range callsTo(au, fn(w.Lib, "Whisper.putPointAt")) {
 			es := callArgExprs(w, c)
-			if regexp.MustCompile(`alignPoints\(.*\)\[\(i\d+ \+ 1\)\]$`).MatchString(es[1]) && strings.HasPrefix(es[2], "whispertool.ArchiveInfo.pointOffsetAt(") && strings.Contains(es[2], ".Time") {
+			if regexp.MustCompile(`alignPoints\(.*\)\[(\(i\d+ \+ 1\)|i\d+)\]$`).MatchString(es[1]) && strings.HasPrefix(es[2], "whispertool.ArchiveInfo.pointOffsetAt(") && strings.Contains(es[2], ".Time") {
 				okW = true
 			}
 			if inLoopWith(c.Block()) == false {
